@@ -42,8 +42,17 @@ type c03Args struct {
 
 // c03Run: dir "c2s" (client sends N=progress notification, T=tool call, P=ping)
 // or "s2c" (server sends N=progress, L=log message, M=create-message call).
-func c03Run(dir, version string, maxLen int) vs.Verdict {
+func c03Run(dir, version string, maxLen int) vs.Verdict { return c03RunNested(dir, version, maxLen, false) }
+
+// c03RunNested: with nested set, every notification handler (and the initialized handler) first calls
+// the peer back under its own context - what a roots/list_changed handler calling ListRoots or a
+// list_changed handler re-listing does - and only then parks on its gate: it is still the running
+// handler of a notification, so nothing later may start.
+func c03RunNested(dir, version string, maxLen int, nested bool) vs.Verdict {
 	f := &e1Fail{prefix: "c03 " + dir}
+	if nested {
+		f.prefix += " nested"
+	}
 	ctx := context.Background()
 	alpha := "NTP"
 	if dir == "s2c" {
@@ -85,20 +94,43 @@ func c03Run(dir, version string, maxLen int) vs.Verdict {
 	sopts := &ServerOptions{
 		InitializedHandler: func(ctx context.Context, r *InitializedRequest) {
 			vs.Event("start init")
+			if nested {
+				if err := r.Session.Ping(ctx, nil); err != nil {
+					f.failf("nested-call-failed", "ping from the initialized handler: %v", err)
+				}
+			}
 			initGate.Wait()
 			vs.Event("finish init")
 		},
 		ProgressNotificationHandler: func(ctx context.Context, r *ProgressNotificationServerRequest) {
+			if nested {
+				vs.Event("start %d", tokenIndex(r.Params.ProgressToken))
+				if err := r.Session.Ping(ctx, nil); err != nil {
+					f.failf("nested-call-failed", "ping from a notification handler: %v", err)
+				}
+			}
 			handle(tokenIndex(r.Params.ProgressToken))
 		},
 	}
 	copts := &ClientOptions{
 		ProgressNotificationHandler: func(ctx context.Context, r *ProgressNotificationClientRequest) {
+			if nested {
+				vs.Event("start %d", tokenIndex(r.Params.ProgressToken))
+				if err := r.Session.Ping(ctx, nil); err != nil {
+					f.failf("nested-call-failed", "ping from a notification handler: %v", err)
+				}
+			}
 			handle(tokenIndex(r.Params.ProgressToken))
 		},
 		LoggingMessageHandler: func(ctx context.Context, r *LoggingMessageRequest) {
 			var k int
 			fmt.Sscanf(fmt.Sprint(r.Params.Data), "k=%d", &k)
+			if nested {
+				vs.Event("start %d", k)
+				if err := r.Session.Ping(ctx, nil); err != nil {
+					f.failf("nested-call-failed", "ping from a notification handler: %v", err)
+				}
+			}
 			handle(k)
 		},
 		CreateMessageHandler: func(ctx context.Context, r *CreateMessageRequest) (*CreateMessageResult, error) {
@@ -561,6 +593,8 @@ func TestVerifC03(t *testing.T) {
 	scs := []*verifx.Scenario{
 		vs.E1(t, "inmem/c2s/2025-06-18", b, vs.Options{}, func() vs.Verdict { return c03Run("c2s", "2025-06-18", 3) }),
 		vs.E1(t, "inmem/s2c/2025-06-18", b, vs.Options{}, func() vs.Verdict { return c03Run("s2c", "2025-06-18", 3) }),
+		vs.E1(t, "inmem/c2s/nested-calls-in-notification-handlers", b, vs.Options{}, func() vs.Verdict { return c03RunNested("c2s", "2025-06-18", env.Pick(2, 3), true) }),
+		vs.E1(t, "inmem/s2c/nested-calls-in-notification-handlers", b, vs.Options{}, func() vs.Verdict { return c03RunNested("s2c", "2025-06-18", env.Pick(2, 3), true) }),
 		vs.E1(t, "inmem/concurrent-calls", b, vs.Options{}, func() vs.Verdict { return c03Concurrent("2025-06-18") }),
 		vs.E1(t, "http/stateful", b, vs.Options{}, func() vs.Verdict { return c03HTTP("stateful") }),
 		vs.E1(t, "http/stateless-legacy", b, vs.Options{}, func() vs.Verdict { return c03HTTP("stateless-legacy") }),
